@@ -659,8 +659,9 @@ vgroup_insert(int32 infile_id, int32 outfile_id, int32 sd_id, /* SD interface id
                     }
 
                     else {
-                        /* open previously visited group */
-                        vgroup_id_out = Vattach(outfile_id, ref, "r");
+                        /* open the copy of the previously visited group: it has its own reference
+                           number in the output file */
+                        vgroup_id_out = Vattach(outfile_id, list_tbl->objs[visited].out_ref, "r");
                     }
 
                     /* insert the created (or opened) vgroup into its parent */
@@ -684,6 +685,8 @@ vgroup_insert(int32 infile_id, int32 outfile_id, int32 sd_id, /* SD interface id
 
                     /* add object to table */
                     list_table_add(list_tbl, tag, ref, path);
+                    if (options->trip == 1)
+                        list_tbl->objs[list_tbl->nobjs - 1].out_ref = VQueryref(vgroup_id_out);
 
                     if (options->verbose)
                         printf(PFORMAT, "", "", "", path);
